@@ -13,9 +13,18 @@ def gen_patterns(rng, tree, inp_abs, auto, n=None):
     n = rng.choice([0, 1, 1, 2, 3, 4, 6]) if n is None else n
     for _ in range(n):
         form = rng.choice(["name-file", "name-dir", "glob", "glob", "dir-slash", "starstar", "inside", "abs-file", "abs-dir",
-                           "all-cmake-of-dir"])
+                           "all-cmake-of-dir", "name-at-several-depths", "name-at-several-depths"])
         p = None
-        if form == "name-file" and names_f:
+        if form == "name-at-several-depths":
+            # a bare name that exists directly in the input directory AND deeper: it must match at every depth
+            top = {os.path.basename(x) for x in list(tree.files) + [d for d in tree.dirs if d] if os.path.dirname(x) == ""}
+            deep = {os.path.basename(x) for x in list(tree.files) + [d for d in tree.dirs if d] if os.path.dirname(x) != ""}
+            both = sorted(top & deep)
+            if both:
+                p = rng.choice(both)
+                if p in {os.path.basename(d) for d in tree.dirs} and rng.random() < 0.5:
+                    p += "/"
+        elif form == "name-file" and names_f:
             p = rng.choice(names_f)
         elif form == "name-dir" and names_d:
             p = rng.choice(names_d)
